@@ -169,3 +169,90 @@ theorem toChainId_eq (host : Bytes) (t : Chains) (x : Bytes) :
     rw [this]; cases t.find? (namesRec x) <;> rfl
 
 end DymVerif.Keys
+
+namespace DymVerif.Keys
+open DymVerif
+
+theorem validateAliases_complete : ∀ (as seen : List Bytes), (∀ a ∈ as, validAlias a = true) → as.Nodup →
+    (∀ a ∈ as, a ∉ seen) → validateAliases seen as = .ok (as.reverse ++ seen)
+  | [], seen, _, _, _ => by simp [validateAliases]
+  | a :: as, seen, hv, hn, hs => by
+    have hn' := List.nodup_cons.mp hn
+    have h1 : validAlias a = true := hv a (by simp)
+    have h2 : a ∉ seen := hs a (by simp)
+    have ih := validateAliases_complete as (a :: seen) (fun x hx => hv x (by simp [hx])) hn'.2
+      (fun x hx hm => by
+        rcases List.mem_cons.mp hm with rfl | hm
+        · exact hn'.1 hx
+        · exact hs x (by simp [hx]) hm)
+    simp [validateAliases, h1, h2, ih]
+
+theorem validChainIdFormat_len {s : Bytes} (h : validChainIdFormat s = true) : ¬ s.length < 3 := by
+  simp only [validChainIdFormat, Bool.and_eq_true, decide_eq_true_eq] at h
+  omega
+
+theorem validateRecs_complete : ∀ (t : Chains) (seen : List Bytes), (tableNames t).Nodup →
+    (∀ x ∈ tableNames t, x ∉ seen) → (∀ r ∈ t, validChainIdFormat r.chainId = true) →
+    (∀ r ∈ t, ∀ a ∈ r.aliases, validAlias a = true) →
+    validateRecs seen t = .ok ((tableNames t).reverse ++ seen)
+  | [], seen, _, _, _, _ => by simp [validateRecs, tableNames]
+  | r :: rs, seen, hn, hs, hc, ha => by
+    simp only [tableNames] at hn hs
+    have hn' := List.nodup_cons.mp hn
+    have hap := List.nodup_append.mp hn'.2
+    have h1 := hc r (by simp)
+    have h2 : r.chainId ∉ seen := hs r.chainId (by simp)
+    have hal := validateAliases_complete r.aliases (r.chainId :: seen) (ha r (by simp)) hap.1
+      (fun x hx hm => by
+        rcases List.mem_cons.mp hm with rfl | hm
+        · exact hn'.1 (by simp [hx])
+        · exact hs x (by simp [hx]) hm)
+    have ih := validateRecs_complete rs (r.aliases.reverse ++ r.chainId :: seen) hap.2.1
+      (fun x hx hm => by
+        simp only [List.mem_append, List.mem_reverse, List.mem_cons] at hm
+        rcases hm with hm | rfl | hm
+        · exact hap.2.2 x hm x hx rfl
+        · exact hn'.1 (by simp [hx])
+        · exact hs x (by simp [hx]) hm)
+      (fun q hq => hc q (by simp [hq])) (fun q hq => ha q (by simp [hq]))
+    simp [validateRecs, validChainIdFormat_len h1, h1, h2, hal, ih, tableNames]
+
+/-- the validation refuses nothing else: a table whose texts are pairwise distinct and well formed is accepted -/
+theorem validChains_of_wf {t : Chains} (w : TableWF t) : validChains t = true := by
+  unfold validChains validateChains
+  rw [validateRecs_complete t [] w.nodup (by simp) w.chains w.aliases]
+
+end DymVerif.Keys
+
+namespace DymVerif.Keys
+open DymVerif
+
+theorem tableNames_append : ∀ (a b : Chains), tableNames (a ++ b) = tableNames a ++ tableNames b
+  | [], _ => rfl
+  | r :: rs, b => by simp [tableNames, tableNames_append rs b]
+
+theorem mem_tableNames_reverse (x : Bytes) : ∀ l : Chains, x ∈ tableNames l.reverse ↔ x ∈ tableNames l
+  | [] => by simp
+  | a :: as => by
+    have ih := mem_tableNames_reverse x as
+    simp only [List.reverse_cons, tableNames_append, tableNames, List.mem_append, List.mem_cons, List.append_nil, ih]
+    exact Or.comm
+
+/-- the texts of the reversed table are a permutation of the table's: distinctness is kept -/
+theorem tableNames_reverse_nodup : ∀ (t : Chains), (tableNames t).Nodup → (tableNames t.reverse).Nodup
+  | [], h => h
+  | r :: rs, h => by
+    simp only [tableNames] at h
+    have hn' := List.nodup_cons.mp h
+    have hap := List.nodup_append.mp hn'.2
+    have ih := tableNames_reverse_nodup rs hap.2.1
+    simp only [List.reverse_cons, tableNames_append, tableNames, List.append_nil]
+    refine List.nodup_append.mpr ⟨ih, List.nodup_cons.mpr ⟨fun hm => hn'.1 (by simp [hm]), hap.1⟩, ?_⟩
+    intro a ha b hb hab
+    subst hab
+    rw [mem_tableNames_reverse] at ha
+    rcases List.mem_cons.mp hb with rfl | hb
+    · exact hn'.1 (by simp [ha])
+    · exact hap.2.2 a hb a ha rfl
+
+end DymVerif.Keys
